@@ -251,6 +251,23 @@ def run(ctx, model=None):
     for esc, ch in (("\\x0b", "\x0b"), ("\\x1c", "\x1c"), ("\\x85", "\x85"), ("\\u2028", "\u2028")):
         txt = txt.replace(esc, ch)
     check_file(ctx, "line_separator_names_1", txt, model)
+    # a transition written as a LIST [p, s] denotes a malformed game (the solver wants tuples): the reader must hand
+    # over exactly what the text says, and the report must carry the solver's refusal
+    lst_txt = ("{\n 'as_lists': {'rewards': [0, 1, 0, 0], 'players': ['Probabilistic'] * 4,\n"
+               "   'transition_list': [[[0.5, 1], [0.5, 2]], [[1, 3]], [[1, 2]], [[1, 3]]], 'final_states': [3]},\n"
+               " 'mixed': {'rewards': [0, 1, 0, 0], 'players': ['Probabilistic'] * 4,\n"
+               "   'transition_list': [[(0.5, 1), [0.5, 2]], [(1, 3)], [(1, 2)], [(1, 3)]], 'final_states': [3]},\n"
+               " 'fine': {'rewards': [0, 1, 0, 0], 'players': ['Probabilistic'] * 4,\n"
+               "   'transition_list': [[(0.5, 1), (0.5, 2)], [(1, 3)], [(1, 2)], [(1, 3)]], 'final_states': [3]}\n}\n")
+    check_file(ctx, "list_written_transitions_1", lst_txt, model)
+    # an entry whose two strategy lists DIFFER, followed / preceded by entries that have no strategies at all
+    # (unsolvable, malformed): every block states its own equality flag
+    differ = {"rewards": [0, 0, 5, 0, 0], "players": ["Player 1", "Probabilistic", "Probabilistic", "Probabilistic", "Probabilistic"],
+              "transition_list": [[("a", 1), ("b", 2)], [(1, 4)], [(1, 4)], [(1, 3)], [(1, 4)]], "final_states": [4]}
+    dead = {"rewards": [0, 0, 0], "players": ["Probabilistic"] * 3, "transition_list": [[(1, 1)], [(1, 1)], [(1, 2)]], "final_states": [2]}
+    for order in (("differ_1", "dead_1", "bad_1", "differ_2"), ("dead_1", "differ_1", "bad_1"), ("differ_1", "bad_1", "dead_1")):
+        pool_ = {"differ_1": differ, "differ_2": differ, "dead_1": dead, "bad_1": nb_bad}
+        check_file(ctx, "flag_carry_" + "_".join(o[0] for o in order), render_game_file([(o, pool_[o]) for o in order]), model)
     # the same file through `python -O` (asserts stripped, __debug__ False): identical report
     optimized_cli(ctx, "opt_1", render_game_file([("g_1", nb), ("bad", nb_bad)]))
     # the input given through a symbolic link with another name
